@@ -173,7 +173,7 @@ pub fn noise_strategy() -> impl Strategy<Value = JaxNoise> {
 /// Strategy over (facts, path): free-form facts through the Builder,
 /// standard-flavour facts through every path.
 pub fn ont_case_strategy(max_terms: usize, max_recs: usize, rich_names: bool) -> BoxedStrategy<OntCase> {
-    let free = GenCfg::small().terms(1, max_terms).recs(max_recs).bulk();
+    let free = GenCfg::small().terms(1, max_terms).recs(max_recs).bulk().alt_names();
     let names = if rich_names { NameMode::Capped } else { NameMode::Plain };
     let std_cfg = GenCfg::small()
         .terms(2, max_terms)
@@ -181,7 +181,8 @@ pub fn ont_case_strategy(max_terms: usize, max_recs: usize, rich_names: bool) ->
         .standard()
         .with_flags(true)
         .names(names)
-        .bulk();
+        .bulk()
+        .alt_names();
     let free_s = gen::facts(free).prop_map(|facts| OntCase {
         facts,
         path: PathSel::Builder,
@@ -270,4 +271,16 @@ pub fn first_diff_failure(diffs: &[Diff], prefix: &str, path: PathSel) -> CheckR
         );
     }
     Ok(())
+}
+
+/// Builds facts through own v3 bytes when they can be expressed that way (both default roots
+/// present, names fit) - obsolete flags and replacements then exist in the ontology - and through
+/// the Builder API (build_minimal) otherwise. Used by checks whose case type is plain `Facts`.
+pub fn build_auto(f: &Facts) -> Result<(Ontology, &'static str), String> {
+    let std = f.has_term(1) && f.has_term(118) && f.terms.iter().all(|t| t.name.len() <= 255) && f.recs[GENE].iter().all(|r| r.name.len() <= 255);
+    if std {
+        via_binary(f, 3).map(|o| (o, "bin-v3"))
+    } else {
+        via_builder(f, Finish::Minimal).map(|o| (o, "builder"))
+    }
 }
